@@ -23,7 +23,10 @@ NameSet == {SheetNames[i] : i \in 1..4}
 \* the qualifier as Excel spells it in a formula
 Q(name) == CASE name = "S1" -> "S1!" [] name = "Data 2" -> "'Data 2'!"
              [] name = "O'x" -> "'O''x'!" [] name = "Σ" -> "Σ!"
+             [] name = "S10" -> "S10!" [] name = "Data" -> "Data!"        \* names that are PREFIXES of other sheet names
 NameNum(name) == CASE name = "S1" -> 1 [] name = "Data 2" -> 2 [] name = "O'x" -> 3 [] name = "Σ" -> 4
+                   [] name = "S10" -> 5 [] name = "Data" -> 6
+PrefixOrders == { <<"S1", "S10", "Data 2">>, <<"Data", "Data 2", "S1">>, <<"S10", "S1", "Data">> }
 QRef(name, col, row) == Ref(Q(name), name, col, row, FALSE, FALSE)
 
 Cell(sh, col, row, form) == [sh |-> sh, col |-> col, row |-> row, form |-> form]
@@ -145,6 +148,8 @@ InitCase ==
                     \o GridSeq("Data 2", 5, 100, {}),
                   <<>>, {})
   \/ \E n \in 1..3 : \E s \in InjSeqs(n) : \E ig \in SUBSET {s[i] : i \in 1..n} :
+        case = WB("ignore", s, Contents(s, 1), <<>>, ig)
+  \/ \E s \in PrefixOrders : \E ig \in SUBSET {s[i] : i \in 1..3} :      \* a sheet whose name is a prefix of another one's
         case = WB("ignore", s, Contents(s, 1), <<>>, ig)
   \/ \E s \in FourOrders, ig \in SUBSET NameSet :
         case = WB("ignore", s, Contents(s, 1), <<>>, ig)
